@@ -65,7 +65,7 @@ int main(int argc, char **argv) {
         if (!strcmp(op, "new")) {
             if (v && !dead) { if (QV_TRY(10)) { v->free(v); QV_END; } }
             dead = 0; errno = 0;
-            v = qvector((size_t)atol(a1), (size_t)atol(a2), atoi(a3));
+            { static unsigned ntab; v = qvector((size_t)atol(a1), (size_t)atol(a2), atoi(a3) | ((++ntab & 1) ? 0 : QVECTOR_THREADSAFE)); }   /* every other vector with its lock: same answers */
             if (v) { printf("ok"); dump(v); printf("\n"); } else printf("refused %s\n", ename(errno));
             fflush(stdout); continue;
         }
